@@ -419,6 +419,10 @@ func init() {
 	// directory and replies (stracemon.go)
 	addPlan("C05", planEntry{Engine: "B", Scenario: "votegrid", Params: "shard=0,shards=24", Quick: 1, Thorough: 2, Strace: true, Watchdog: 600e9})
 	addPlan("C05", planEntry{Engine: "A", Scenario: "election", Params: "steps=8", Quick: 1, Thorough: 3, Strace: true, Watchdog: 600e9})
+	addPlan("C09", planEntry{Engine: "A", Scenario: "install-crash", Params: "seg=1024", Quick: 8, Thorough: 80})
+	addPlan("C15", planEntry{Engine: "A", Scenario: "install-crash", Params: "seg=1024", Quick: 8, Thorough: 80})
+	addPlan("C01", planEntry{Engine: "A", Scenario: "late-vote-results", Quick: 6, Thorough: 60})
+	addPlan("C11", planEntry{Engine: "A", Scenario: "late-vote-results", Quick: 4, Thorough: 40})
 	addPlan("C03", planEntry{Engine: "A", Scenario: "slow-fsm", Quick: 6, Thorough: 60})
 	addPlan("C09", planEntry{Engine: "A", Scenario: "slow-fsm", Quick: 4, Thorough: 40})
 	addPlan("C02", planEntry{Engine: "A", Scenario: "grown-cluster", Quick: 6, Thorough: 60})
